@@ -25,6 +25,15 @@ pub struct Detail {
     pub amount: Dec,
     /// included charge (debit), with the transaction amount before charges in AmtDtls
     pub charge: Option<Dec>,
+    /// a second non-zero record in the same `Chrgs` block (included charges only)
+    #[serde(default)]
+    pub charge_extra: Option<Dec>,
+    /// the single charge is flagged `ChrgInclInd=false` (then no AmtDtls is written)
+    #[serde(default)]
+    pub charge_not_included: bool,
+    /// a zero-amount record sits in the block as well
+    #[serde(default)]
+    pub charge_zero_record: bool,
     pub creditor: Option<String>,
     pub debtor: Option<String>,
     pub ultimate_debtor: Option<String>,
@@ -150,17 +159,29 @@ pub fn render_xml(sc: &Sc, st: &Stmt) -> String {
                 let d_credit = e.credit != d.reversal;
                 s.push_str(&format!("<Amt Ccy=\"{}\">{}</Amt><CdtDbtInd>{}</CdtDbtInd>\n", c, d.amount, if d_credit { "CRDT" } else { "DBIT" }));
                 if let Some(x) = d.charge {
-                    let before = if d_credit { d.amount + x } else { d.amount - x };
-                    s.push_str(&format!(
-                        "<AmtDtls><InstdAmt><Amt Ccy=\"{c}\">{b}</Amt></InstdAmt><TxAmt><Amt Ccy=\"{c}\">{b}</Amt></TxAmt></AmtDtls>\n",
-                        c = c,
-                        b = before
-                    ));
-                    s.push_str(&format!(
-                        "<Chrgs><TtlChrgsAndTaxAmt Ccy=\"{c}\">{x}</TtlChrgsAndTaxAmt><Rcrd><Amt Ccy=\"{c}\">{x}</Amt><CdtDbtInd>DBIT</CdtDbtInd><ChrgInclInd>true</ChrgInclInd></Rcrd></Chrgs>\n",
-                        c = c,
-                        x = x
-                    ));
+                    let total = x + d.charge_extra.unwrap_or(Dec::ZERO);
+                    if !d.charge_not_included {
+                        let before = if d_credit { d.amount + total } else { d.amount - total };
+                        s.push_str(&format!(
+                            "<AmtDtls><InstdAmt><Amt Ccy=\"{c}\">{b}</Amt></InstdAmt><TxAmt><Amt Ccy=\"{c}\">{b}</Amt></TxAmt></AmtDtls>\n",
+                            c = c,
+                            b = before
+                        ));
+                    }
+                    let incl = if d.charge_not_included { "false" } else { "true" };
+                    let rcrd = |v: Dec| format!("<Rcrd><Amt Ccy=\"{c}\">{v}</Amt><CdtDbtInd>DBIT</CdtDbtInd><ChrgInclInd>{incl}</ChrgInclInd></Rcrd>", c = c, v = v, incl = incl);
+                    s.push_str(&format!("<Chrgs><TtlChrgsAndTaxAmt Ccy=\"{c}\">{t}</TtlChrgsAndTaxAmt>", c = c, t = total));
+                    if d.charge_zero_record && d.charge_extra.is_none() {
+                        s.push_str(&rcrd(Dec::ZERO));
+                    }
+                    s.push_str(&rcrd(x));
+                    if d.charge_zero_record && d.charge_extra.is_some() {
+                        s.push_str(&rcrd(Dec::ZERO));
+                    }
+                    if let Some(y) = d.charge_extra {
+                        s.push_str(&rcrd(y));
+                    }
+                    s.push_str("</Chrgs>\n");
                 }
                 if d.creditor.is_some() || d.debtor.is_some() || d.ultimate_debtor.is_some() {
                     s.push_str("<RltdPties>");
@@ -337,8 +358,22 @@ pub fn expected(sc: &Sc, st: &Stmt) -> Result<Vec<CTxn>, &'static str> {
                     balance: None,
                     metadata: vec![format!("kv:Payee={}", op)],
                 });
-                // the counter posting carries the amount before charges
-                counter_value = if credit { -(amount + x) } else { amount - x };
+                let mut total = x;
+                if let Some(y) = d.and_then(|d| d.charge_extra) {
+                    total += y;
+                    charges.push(CPost {
+                        account: "Expenses:Commissions".to_string(),
+                        state: ' ',
+                        amount: Some(CVal::Amt(CAmt::new(y, c))),
+                        cost: None,
+                        lot: None,
+                        balance: None,
+                        metadata: vec![format!("kv:Payee={}", op)],
+                    });
+                }
+                // the counter posting carries the amount before charges (included ones), or the
+                // amount with the charge on top (a charge not included): the same figure
+                counter_value = if credit { -(amount + total) } else { amount - total };
             }
             let counter = CPost {
                 account: folded.account.clone().unwrap_or_else(|| if credit { "Income:Unknown".to_string() } else { "Expenses:Unknown".to_string() }),
@@ -473,7 +508,19 @@ pub fn gen_sc(rng: &mut Rng, hostile: bool, multi: bool) -> Sc {
                 } else {
                     None
                 };
+                let not_included = charge.is_some() && rng.chance(1, 4);
+                let charge_extra = match charge {
+                    Some(x) if !not_included && rng.chance(1, 3) => {
+                        let y = Dec::new(1 + rng.below(200) as i64, 2);
+                        if !credit && x + y >= amount { None } else { Some(y) }
+                    }
+                    _ => None,
+                };
+                let charge_zero_record = charge.is_some() && rng.chance(1, 4);
                 details.push(Detail {
+                    charge_extra,
+                    charge_not_included: not_included,
+                    charge_zero_record,
                     reference: if hostile && rng.chance(1, 6) {
                         Some(["a)b", "ref (1)", " padded ", "ref;1", "", "\u{3000}wide padded\u{3000}", "\u{a0}nbsp"][rng.usize(7)].to_string())
                     } else if rng.chance(4, 5) {
@@ -1049,13 +1096,13 @@ impl Check for C18 {
     }
 
     fn rule(&self) -> &'static str {
-        "a model bank account emits 1-3 consecutive consistent single-currency camt.053 statements (opening/closing balance of either sign, 0-8 entries: credits and debits, no details / one detail / batches of 2-3 details summing to the entry, charges included in the amount with the pre-charge amount in AmtDtls, value date absent / equal / different from the booking date as Dt or DtTm, bank transaction codes by domain or proprietary, parties inline or nested, either row_order with the file listing entries accordingly) under 0-6 rewrite rules whose elements combine 1-3 of the camt fields (several of them capturing); every imported transaction is compared with the model's (opening-balance transaction first, one per entry or detail, sign, dates, code, fee posting, closing assertion on the last; payee / counter-account / pending mark by the model's rule fold, DONT_CARE when two fields of one element capture different text) in 2-4 simulated processes (hash seed, chunked XML and YAML streams), and the shipped command must print the same bytes; then funding + the printed output of the deliveries (exactly once in order, duplicated, lost, swapped) is book-kept by okane and by the reference model: same verdict, same final balance, the closing balance after an exactly-once delivery; non-trivial = some statement has entries; distinct = structural hash of the tape"
+        "a model bank account emits 1-3 consecutive consistent single-currency camt.053 statements (opening/closing balance of either sign, 0-8 entries: credits and debits, no details / one detail / batches of 2-3 details summing to the entry, charges - one or two records, optionally a zero one, included in the amount with the pre-charge amount in AmtDtls, or a single record not included -, value date absent / equal / different from the booking date as Dt or DtTm, bank transaction codes by domain or proprietary, parties inline or nested, either row_order with the file listing entries accordingly) under 0-6 rewrite rules whose elements combine 1-3 of the camt fields (several of them capturing); every imported transaction is compared with the model's (opening-balance transaction first, one per entry or detail, sign, dates, code, fee posting, closing assertion on the last; payee / counter-account / pending mark by the model's rule fold, DONT_CARE when two fields of one element capture different text) in 2-4 simulated processes (hash seed, chunked XML and YAML streams), and the shipped command must print the same bytes; then funding + the printed output of the deliveries (exactly once in order, duplicated, lost, swapped) is book-kept by okane and by the reference model: same verdict, same final balance, the closing balance after an exactly-once delivery; non-trivial = some statement has entries; distinct = structural hash of the tape"
     }
 
     fn assumptions(&self) -> Vec<&'static str> {
         vec![
             "the date of the opening-balance transaction is not stated and not judged",
-            "charges not included in the amount, multi-currency details and several statements per file are not generated",
+            "multi-currency details, charges in another currency and several statements per file are not generated",
         ]
     }
 }
